@@ -1175,8 +1175,14 @@ impl SessionContext {
         let mut builder = RuntimeEnvBuilder::from_runtime_env(state.runtime_env());
         builder = match key {
             "memory_limit" => {
-                let memory_limit = Self::parse_capacity_limit(variable, value)?;
-                builder.with_memory_limit(memory_limit, 1.0)
+                if value == "unlimited" {
+                    // the text reported for the default (unbounded) pool
+                    builder.memory_pool = None;
+                    builder
+                } else {
+                    let memory_limit = Self::parse_capacity_limit(variable, value)?;
+                    builder.with_memory_limit(memory_limit, 1.0)
+                }
             }
             "max_temp_directory_size" => {
                 let directory_size = Self::parse_capacity_limit(variable, value)?;
@@ -1332,8 +1338,9 @@ impl SessionContext {
                 "Empty limit value found for '{config_name}'"
             ));
         }
-        if limit == "0" {
-            return Ok(0);
+        // a plain number is a number of bytes (this is how sizes below 1K are reported)
+        if let Ok(bytes) = limit.parse::<usize>() {
+            return Ok(bytes);
         }
         let (unit_start, unit) = limit.char_indices().next_back().ok_or_else(|| {
             plan_datafusion_err!("Empty limit value found for '{config_name}'")
